@@ -26,6 +26,8 @@ CLAIMS = {
  "C14": ("ledger", "model_checking", LEDGER_LEVEL + "; streams of real ledgers loaded into fresh real nodes, single corruptions of the stream, follow-up traffic to both nodes", LEDGER_NOTE),
  "C17": ("cache", "model_checking", "TLC explores every interleaving of the individual bigcache calls of concurrent save / remove / read operations (AwaitCache.tla, mutex-guarded as in the repaired code) and checks the quiescence invariant (listed for issuer and receiver, nothing else, nothing twice) and that only the receiver removes; on the real Hippocampus sequential call sequences are judged call by call against the specification, every two-call interleaving is forced at the gate between list read and list write, and free-running goroutines on shared addresses end in states TLC judges with the same invariant",
          "trusted: VerifPeek (read-only hook), bigcache single calls atomic, TLC; expiry/eviction are excluded by running with an unbounded cache inside the life window"),
+ "C20": ("file", "fault_enumeration", "WalletFile.tla states what Decrypt + GOB decoding return for every file length, every changed byte position and every key class (AEAD axiom; the unchecked slice is a named deviation switch); TLC enumerates it at scaled region lengths, and the driver executes ALL concrete members on the real code - every truncation length 0..len, every single-byte position with several values, wrong keys, single key-bit flips, keys of invalid length, PEM round trip - with TLC judging each recorded outcome against the specification",
+         "trusted: crypto/aes, cipher.GCM and encoding/gob behave as the AEAD axiom says; TLC"),
 }
 NA = {
  "C19": "encode/decode fidelity of third-party codecs: no state, interleaving or case analysis in this repository to specify; a TLA+ model of encode-then-decode is the identity function (DESIGN.md section 8)",
@@ -43,6 +45,8 @@ m = {"version": 1, "setup_cmd": "./check setup",
          "serves_properties": ["C05"], "kind_free_text": "TLA+ transcription of the currency arithmetic vs reference semantics, exhaustive at scaled constants; trace validation at real constants"},
         {"name": "cache", "path": "specs/AwaitCache.tla specs/AwaitCacheMC.tla specs/AwaitCacheTrace.tla harness/cmd/drive/cachedrv.go runner/cachechk.py",
          "serves_properties": ["C17"], "kind_free_text": "TLA+ specification of the cache operations at bigcache-call granularity; TLC; trace validation incl. gate-forced interleavings"},
+        {"name": "file", "path": "specs/WalletFile.tla specs/WalletFileTrace.tla harness/cmd/drive/filedrv.go runner/filechk.py",
+         "serves_properties": ["C20"], "kind_free_text": "TLA+ case analysis of reading the encrypted wallet file; every enumerated fault executed on the real code, outcomes judged by TLC"},
         {"name": "locks", "path": "specs/WalkLocks.tla specs/WalkLocksMC.tla specs/WalkLocksTrace.tla harness/cmd/drive/locks.go runner/locks.py",
          "serves_properties": ["C08"], "kind_free_text": "explicit TLA+ specification of locks, walker goroutines and channels; TLC safety + liveness; real-code fault enumeration judged by TLC"}],
      "checks": [], "not_applicable": [], "notes": "see DESIGN.md; known findings in known_findings.json"}
